@@ -1068,6 +1068,30 @@ class Walker:
                 return mk_bool(call_atom(r))
             return r
 
+        # ---- writes spelled as method / function calls: `place.clone_from(&v)`, `opt.replace(v)`, `opt.insert(v)`,
+        #      `mem::replace(&mut place, v)` are assignments to the place
+        def _place_node(a):
+            while isinstance(a, dict) and a.get('k') in ('Deref', 'Borrow', 'Scope', 'Use') and 'e' in a:
+                a = a['e']
+            return a
+        if name == 'clone_from' and len(args) == 2 and not is_local:
+            self.emit('assign', n, pc, lhs=recv, rhs=args[1], lhs_node=_place_node(n['args'][0]), via=name)
+            return ('unit',)
+        if path in ('std::mem::replace', 'core::mem::replace') and len(args) == 2:
+            self.emit('assign', n, pc, lhs=args[0], rhs=args[1], lhs_node=_place_node(n['args'][0]), via='mem::replace')
+            return ('old', args[0])
+        if _is_opt(recv_ty) and name in ('replace', 'insert') and len(args) == 2:
+            self.emit('assign', n, pc, lhs=recv, rhs=('some', args[1]), lhs_node=_place_node(n['args'][0]), via=name)
+            return ('old', recv) if name == 'replace' else args[1]
+
+        # a function item handed to a combinator (`map_or_else(String::new, ..)`, `unwrap_or_else(Vec::new)`) is applied like a closure
+        def _fnref_call(a, fargs):
+            if isinstance(a, tuple) and a[:1] == ('fnref',):
+                if not fargs and a[1].split('::')[-1] in ('new', 'default') and ('String' in a[1] or 'Vec' in a[1] or 'Hash' in a[1]):
+                    return ('fresh', a[1].rsplit('::', 1)[0], n.get('hid', id(n)))
+                return ('call', a[1]) + tuple(fargs)
+            return None
+
         # ---- Option / Result
         if _is_opt(recv_ty) or _is_res(recv_ty):
             okv = 'Some' if _is_opt(recv_ty) else 'Ok'
@@ -1091,6 +1115,8 @@ class Walker:
                 dflt = args[1] if len(args) > 1 else ('default',)
                 if name == 'unwrap_or_else' and cl[1:] and cl[1]:
                     dflt, _ = self.apply_closure(cl[1], [], And(pc, Not(is_variant(recv, okv))))
+                elif name == 'unwrap_or_else' and len(args) > 1 and _fnref_call(args[1], []) is not None:
+                    dflt = _fnref_call(args[1], [])
                 return mk_ite(is_variant(recv, okv), payload(recv, okv), dflt)
             if name == 'or':
                 return mk_ite(is_variant(recv, okv), recv, args[1])
@@ -1100,8 +1126,11 @@ class Walker:
             if name == 'is_none_or' and len(args) == 2 and cl[1]:
                 cv, _ = self.apply_closure(cl[1], [payload(recv, okv)], And(pc, is_variant(recv, okv)))
                 return mk_bool(Or(Not(is_variant(recv, okv)), as_formula(cv)))
-            if name == 'map_or_else' and len(args) == 3 and cl[1] and cl[2]:
-                dv, _ = self.apply_closure(cl[1], [], And(pc, Not(is_variant(recv, okv))))
+            if name == 'map_or_else' and len(args) == 3 and (cl[1] or _fnref_call(args[1], []) is not None) and cl[2]:
+                if cl[1]:
+                    dv, _ = self.apply_closure(cl[1], [], And(pc, Not(is_variant(recv, okv))))
+                else:
+                    dv = _fnref_call(args[1], [])
                 cv, _ = self.apply_closure(cl[2], [payload(recv, okv)], And(pc, is_variant(recv, okv)))
                 return mk_ite(is_variant(recv, okv), cv, dv)
             if name == 'map_or' and len(args) == 3 and cl[2]:
